@@ -68,8 +68,10 @@ Definition fmod (x y : float) : float :=
 (* ---------- number -> text ---------- *)
 Definition z_dec (z : Z) : str := s_ (NilZero.string_of_int (Z.to_int z)).
 
-Fixpoint pad_zeros (n : nat) (s : str) : str :=
-  match n with O => s | S k => if Nat.ltb (List.length s) n then pad_zeros k (48%N :: s) else s end.
+(* left-pad with '0' up to [target] digits (fuel = target suffices: each round adds one digit) *)
+Fixpoint pad_to (fuel target : nat) (s : str) : str :=
+  match fuel with O => s | S k => if Nat.ltb (List.length s) target then pad_to k target (48%N :: s) else s end.
+Definition pad_zeros (n : nat) (s : str) : str := pad_to n n s.
 
 (* strip the factors of two common to mantissa and 2^k *)
 Fixpoint reduce_frac (fuel : nat) (m k : Z) : Z * Z :=
